@@ -108,7 +108,7 @@ impl HeaderList {
         let mut n = 0;
         while n < self.0.len() {
             if self.0[n].name.eq_ignore_ascii_case(name.as_ref()) {
-                let header = self.0.swap_remove(n);
+                let header = self.0.remove(n);
                 values.push(header.value);
             } else {
                 n += 1;
